@@ -3,12 +3,18 @@ HOOKS = dict(
     guard="verif-hooks (cargo feature of ciphercore-base)",
     enable="harness crates depend on /repo/ciphercore-base by path with features=[\"verif-hooks\"]; the graph-SMT driver needs no hooks",
     baseline_off_cmd="cd /repo && cargo test --workspace --no-fail-fast --offline",
-    source_commits=[],
+    source_commits=["2dd9392", "2c213be"],
     add_only=True,
 )
+K_NOTE = ("Trusted: Kani 0.68 / CBMC 6.11 (cadical); the harness-side specifications (wrapping/masking arithmetic written independently in the harness); stubs: Backtrace::capture, alloc::fmt::format, "
+          "anyhow::__private::format_err (error construction is either reported as failure or replaced by an opaque never-dereferenced handle); harness values are leaked. Unwinding assertions on.")
+
 ENGINES = [
+    dict(name="kani-kernels", path="kani/ + kcheck/", serves_properties=["C09", "C10", "C13", "C14"],
+         kind_free_text="Kani proof harnesses (kani::any inputs, #[kani::unwind]) over the real leaf kernels of ciphercore-base (bytes.rs, slices.rs, broadcast.rs, random.rs, evaluator free functions), "
+                        "built from /repo's working tree with the verif-hooks feature; failing harnesses are replayed natively with Kani's concrete playback before a VIOLATION is printed"),
     dict(name="graph-smt", path="driver/ + symg/",
-         serves_properties=["C01", "C02", "C06", "C16", "C17"],
+         serves_properties=["C01", "C02", "C06", "C07", "C08", "C16", "C17"],
          kind_free_text="Rust driver linked against /repo's current tree runs the real instantiate/inline/compile/optimize functions and dumps the term DAGs they build; "
                         "a Python interpreter turns each DAG 1:1 into z3 bit-vector terms (inputs, randomness, junk symbolic) and z3/cvc5 decide the property; models are replayed on the real evaluator"),
 ]
@@ -38,6 +44,38 @@ chk("C06", "graph-smt", "translation_validation",
     "that every party's output is unchanged, which is what keeping Send markers on same-valued nodes means; input interface, mapped-node types and recorded-vs-reinferred types (serde round trip) are compared on the dumps.",
     G_NOTE, "SMT (z3 QF_BV) per-mapped-node equivalence of graph vs real optimiser output, inputs and randomness symbolic", "DESIGN.md §5 C06")
 
+chk("C07", "graph-smt", "translation_validation",
+    "Bounded translation validation of inline_operations: contexts with Iterate over bodies of every state kind (empty, associative incl. a non-commutative affine-composition body, one-bit, K-bit small state with batching, general tuple state), "
+    "nested Calls (depth <= 3) and bodies that draw randomness, vector lengths 0,1,16 plus seed-chosen lengths up to 40 (all 0..40 thorough), modes Simple / DepthOptimized(Default) / DepthOptimized(Extreme) and per-operation overrides: "
+    "the solver shows reference Call/Iterate semantics = inlined graph for ALL inputs. Randomising bodies: one fresh draw per executed copy.",
+    G_NOTE + " Reference semantics of Call/Iterate transcribed from evaluators.rs:25-61 and cross-checked on the real evaluator per program.",
+    "SMT (z3/cvc5) equivalence of reference fold semantics vs real inliner output, inputs symbolic", "DESIGN.md §5 C07")
+
+chk("C08", "graph-smt", "translation_validation",
+    "Totality of run_instantiation_pass observed on generated contexts that mix 2-5 library custom operations, in particular all pairs/triples of parameterisations of one operation on the same argument types (the collision class); "
+    "meaning: each custom node's value in the mixed instantiated+inlined context is compared by the solver, for ALL inputs, with its stand-alone instantiation and, for exact operations, with its bit-vector library definition (comparisons, min/max, mux, adder, clip, long division, integer-key sort).",
+    G_NOTE, "run of the real instantiation pass + SMT equivalence (z3 QF_BV) per custom node against stand-alone instantiation and bit-vector spec", "DESIGN.md §5 C08")
+
+chk("C09", "kani-kernels", "model_checking",
+    "Bounded model checking (Kani/CBMC) of the index arithmetic shared by typing rules and evaluator loops: slices (all i64 begin/end/step, axis <= 4; rank-2 with arbitrary elements), NumPy shape broadcasting, "
+    "number/index conversion, broadcast_to_shape, inverse permutation on arbitrary index arrays: no panic, no overflow, accepted => in bounds. NOT whole-graph evaluation; functions taking ciphercore Types are out of reach and only observed by the graph-SMT engine's per-node check_type/catch_unwind (sampled).",
+    K_NOTE, "Kani/CBMC bounded model checking of the real index-arithmetic kernels, all integer inputs symbolic", "DESIGN.md §5 C09")
+
+chk("C10", "kani-kernels", "model_checking",
+    "Bounded model checking (Kani/CBMC) of the modular arithmetic and byte decoding kernels that every arithmetic operation of the evaluator is built from (bytes.rs add/sub/mul/dot/sum on u64 and u128 paths for every modulus, sign extension, broadcast_to_shape) against an independent wrapping/masking spec for ALL operand values incl. >= 2^64. "
+    "The per-operation evaluator code that takes Types/Values is out of CBMC's reach; it is compared with the independent NumPy-style interpreter on boundary vectors by the graph-SMT checks (sampled).",
+    K_NOTE, "Kani/CBMC bounded model checking of the real arithmetic kernels vs modular spec, operands symbolic", "DESIGN.md §5 C10")
+
+chk("C13", "kani-kernels", "model_checking",
+    "Bounded model checking (Kani/CBMC), byte half only: integer -> bytes -> integer through vec_to_bytes / vec_u128_from_bytes / vec_u64_from_bytes for source integer type x target scalar type instantiations (12 quick, 20 thorough), all values: value mod 2^w, sign-extended; "
+    "bit arrays of every length 1..17 packed LSB-first without stray bits; non-bit inputs rejected. JSON form and Type-recursive layout check are outside the claim.",
+    K_NOTE, "Kani/CBMC bounded model checking of the real integer/byte conversion kernels, all values symbolic", "DESIGN.md §5 C13")
+
+chk("C14", "kani-kernels", "model_checking",
+    "Bounded model checking (Kani/CBMC) at the arithmetic leaf that the sharing code applies to every scalar/array leaf: for every scalar width, every secret and every pair of draws, v0+v1+(v-v0-v1) = v byte for byte, and the pair of shares each party holds is an injective (hence bijective, hence uniform) function of the draws. "
+    "The Type-recursive placement of shares and junk in the per-party tuples is read, not solver-checked.",
+    K_NOTE + " PRNG draws modelled as arbitrary valid values.", "Kani/CBMC bounded model checking of share/reveal arithmetic kernels, secret and draws symbolic", "DESIGN.md §5 C14")
+
 chk("C16", "graph-smt", "other",
     "Bounded symbolic equivalence: for each comparison/min/max operation, signedness, bit width (1..17,31..33,63,64,128 quick; 1..64,96,127,128 thorough), broadcasting pattern and inline mode, the graph built by the real instantiate code is "
     "symbolically executed and the solver shows it equals bvult/bvslt/.../ite on the encoded integers for ALL operand values (unsat), i.e. exhaustive in the operands at every listed width. Not a proof over all widths.",
@@ -50,9 +88,12 @@ chk("C17", "graph-smt", "other",
     G_NOTE, "SMT (z3 QF_BV) equivalence of the real generated circuit vs bit-vector spec, all operands symbolic", "DESIGN.md §5 C17")
 
 _pending = "check not built yet in this session; see DESIGN.md for the plan"
-for p in ["C03","C04","C05","C07","C08","C09","C10","C13","C14","C15","C18"]:
+for p in ["C03","C04","C05","C18"]:
     NOT_APPLICABLE[p] = _pending
 NOT_APPLICABLE["C11"] = "API histories over Arc/AtomicRefCell/HashMap state with format!-built errors: not encodable (Kani: 580 s/15 GB on a 3-call concrete history); a hand model would not be the real code"
 NOT_APPLICABLE["C12"] = "serde_json/typetag parsing of several-hundred-byte strings followed by the graph-building API: out of reach of bit-precise symbolic execution; round-trip equality has no input to quantify besides the program"
+NOT_APPLICABLE["C15"] = ("between random.rs and the AES block function sits the `cipher` crate's generic block-mode machinery (GenericArray::generate loops of 16, ParBlocks closures); with the block function stubbed (aes::soft::fixslice::aes128_encrypt) "
+                         "every harness through PrfSession needs unwind >= 17 on all loops incl. the rejection loops: probed harnesses (bounded draw, buffer hand-over, permutation) ran out of memory or did not finish in 25-40 min; trait-method stubbing of BlockEncrypt is not supported by Kani 0.68; "
+                         "'different keys give unrelated values' is a cryptographic assumption. Harness sources kept in kani/src/h_random.rs")
 NOT_APPLICABLE["C19"] = "plaintext join is HashMap<String,..>/SipHash code, secure join is LowMC OPRF + cuckoo hashing with a 100-round data-dependent loop; correctness is probabilistic; not encodable within meaningful bounds"
 NOT_APPLICABLE["C20"] = "oracle is a real-valued transcendental function and the implementations are chains of 64-bit fixed-point multiplications: either a real/float statement (outside QF_BV) or an exhaustive sweep (enumeration, not solving)"
